@@ -84,13 +84,39 @@ def q1(ctx, F):
                    "request the search keeps expanding nodes", expected="load(continue_running) dominates every other call",
               found=[(c, cfg.line_of_block(b)) for b, c in not_dom][:5])
     # the cleared-flag branch returns None without any call
-    t2 = cfg.blocks[lt["target"]]["term"]
     ok = False
     found = None
-    if t2["k"] == "SwitchInt" and (t2["discr"].get("place") or {}).get("l") == lt["dest"]["l"]:
-        tgt0 = [x[1] for x in t2["targets"] if x[0] == 0]
-        if tgt0:
-            calls, seen = calls_on_paths(cfg, tgt0[0])
+    # the first switch after the load whose discriminant derives from the loaded value (through copies and `!`)
+    cur = lt["target"]
+    hops = 0
+    while cfg.blocks[cur]["term"]["k"] == "Goto" and hops < 5:
+        cur = cfg.blocks[cur]["term"]["target"]
+        hops += 1
+    t2 = cfg.blocks[cur]["term"]
+    if t2["k"] == "SwitchInt" and t2["discr"].get("k") in ("copy", "move"):
+        l = t2["discr"]["place"]["l"]
+        neg = 0
+        for _ in range(8):
+            if l == lt["dest"]["l"]:
+                break
+            ds = defs.get(l) or []
+            if len(ds) != 1:
+                break
+            rv = ds[0]
+            if rv["k"] == "Use" and rv["op"].get("k") in ("copy", "move"):
+                l = rv["op"]["place"]["l"]
+            elif rv["k"] == "UnaryOp" and rv.get("op") == "Not" and rv["a"].get("k") in ("copy", "move"):
+                neg ^= 1
+                l = rv["a"]["place"]["l"]
+            else:
+                break
+        if l == lt["dest"]["l"]:
+            zero = [x[1] for x in t2["targets"] if x[0] == 0]
+            nonzero = [x[1] for x in t2["targets"] if x[0] != 0] or [t2["otherwise"]]
+            if not zero:
+                zero = [t2["otherwise"]]
+            cleared = zero if neg == 0 else nonzero      # flag value false <=> switch value 0 (or 1 after a `!`)
+            calls, seen = calls_on_paths(cfg, cleared[0])
             ok = not calls and assigns_none_to_return(cfg, seen)
             found = {"calls on the cleared-flag path": calls, "returns None": assigns_none_to_return(cfg, seen)}
     ctx.check("C07.Q1", "cleared-flag-returns-abort-at-once", ok, fn=SCORE, file=fn["file"], line=mir.span_line(lt),
